@@ -178,10 +178,10 @@ pub fn fault_point(point: &str, path: &Path) -> anyhow::Result<()> {
             match (point, kind) {
                 ("format", "panic") => panic!("verif-hooks: injected formatter crash for {}", name),
                 ("format", "verify") => {
-                    return Err(anyhow::Error::new(
-                        stylua_lib::Error::VerificationAstDifference,
+                    return Err(
+                        anyhow::Error::new(stylua_lib::Error::VerificationAstDifference)
+                            .context(format!("could not format file {}", path.display())),
                     )
-                    .context(format!("could not format file {}", path.display())))
                 }
                 ("write", "write") => {
                     return Err(anyhow::Error::new(std::io::Error::new(
